@@ -173,6 +173,33 @@ theorem gp'_not_differentiableAt_zero : ¬ DifferentiableAt ℝ gp' 0 := by
   have e2 : d = 1 := (uniqueDiffWithinAt_Iic (0:ℝ)).eq_deriv _ hd.hasDerivWithinAt hl
   linarith
 
+/-- from the right of the kink `gp'` is constant: slope 0 -/
+theorem gp'_right_at_zero : HasDerivWithinAt gp' 0 (Set.Ici 0) 0 := by
+  refine (hasDerivWithinAt_const (0:ℝ) (Set.Ici 0) (1:ℝ)).congr ?_ ?_
+  · intro y hy
+    have : ¬ y < 0 := not_lt.mpr (Set.mem_Ici.mp hy)
+    simp [gp', this]
+  · simp [gp']
+
+/-- from the left it is `exp`: slope 1 -/
+theorem gp'_left_at_zero : HasDerivWithinAt gp' 1 (Set.Iic 0) 0 := by
+  have h := (Real.hasDerivAt_exp 0).hasDerivWithinAt (s := Set.Iic 0)
+  rw [Real.exp_zero] at h
+  refine h.congr ?_ ?_
+  · intro y hy
+    rcases lt_or_eq_of_le (Set.mem_Iic.mp hy) with h' | h'
+    · simp [gp', h']
+    · subst h'; simp [gp']
+  · simp [gp']
+
+/-- `gp''` is the *right* derivative of `gp'` everywhere, the kink included -/
+theorem gp'_hasDerivWithinAt_Ici (x : ℝ) : HasDerivWithinAt gp' (gp'' x) (Set.Ici x) x := by
+  by_cases hx : x = 0
+  · subst hx
+    have : gp'' 0 = 0 := by simp [gp'']
+    rw [this]; exact gp'_right_at_zero
+  · exact (gp'_hasDerivAt x hx).hasDerivWithinAt
+
 end RT
 
 /-- the same parameter at another transformed coordinate -/
